@@ -956,3 +956,112 @@ func c19BindingErrors(c *Ctx, r *Report, rule string) {
 		r.Undecided(rule, fi.Name, "Eval call", c.Pos(fi.Decl.Pos()), "the stage that evaluates the compiled formula with a context wrapper was not found")
 	}
 }
+
+// ---------------------------------------------------------------- C13-d a comparator that may be reversed is not strict
+
+// c13BothDirections (C13-d/both-directions): sorting.Reverse negates the
+// comparator, so a reversed comparator answers true for (a, b) *and* (b, a)
+// whenever the original called them equal. Code that is handed a comparator
+// and consults it in both argument orders ("a before b? else b before a? else
+// next column") therefore decides equal keys as "less" in both directions
+// under --sort-reverse: the relation is not antisymmetric and the order of
+// those rows falls back to arrival / map order. As long as Reverse has the
+// negation form, no function may call a comparator it received (parameter or
+// captured variable) with the same two operands in both orders.
+func c13BothDirections(c *Ctx, r *Report, rule string) {
+	// is Reverse the negation form?
+	negation := false
+	if fi := c.Func(sortingPkg, "Reverse"); fi != nil {
+		ast.Inspect(fi.Decl.Body, func(x ast.Node) bool {
+			if ue, ok := x.(*ast.UnaryExpr); ok && ue.Op == token.NOT {
+				if _, isCall := ast.Unparen(ue.X).(*ast.CallExpr); isCall {
+					negation = true
+				}
+			}
+			return true
+		})
+	}
+	if !negation {
+		r.OK(rule, sortingPkg+".Reverse", "form", "-", "shape: Reverse does not negate its comparator, so reversed comparators stay strict")
+		return
+	}
+	n, bad := 0, 0
+	for _, fi := range c.AllFuncDecls("rare/pkg/aggregation", "rare/pkg/csv", "rare/cmd", "rare/pkg/multiterm") {
+		info := fi.Pkg.TypesInfo
+		bodies := []*ast.BlockStmt{fi.Decl.Body}
+		for _, fl := range funcLitsIn(fi.Decl.Body) {
+			bodies = append(bodies, fl.Body)
+		}
+		for _, body := range bodies {
+			type callRec struct {
+				a, b string
+				pos  token.Pos
+			}
+			calls := map[types.Object][]callRec{}
+			inspectNoLit(body, func(x ast.Node) bool {
+				ce, ok := x.(*ast.CallExpr)
+				if !ok || len(ce.Args) != 2 {
+					return true
+				}
+				v, _ := identObj(info, ce.Fun).(*types.Var)
+				if v == nil {
+					return true
+				}
+				sig, _ := v.Type().Underlying().(*types.Signature)
+				if sig == nil || sig.Params().Len() != 2 || sig.Results().Len() != 1 || !isBool(sig.Results().At(0).Type()) || !types.Identical(sig.Params().At(0).Type(), sig.Params().At(1).Type()) {
+					return true
+				}
+				// received, not built here: a parameter, or a variable of an enclosing function / the package
+				if within(body, v.Pos()) && !isParamOf(info, fi.Decl, body, v) {
+					return true
+				}
+				calls[v] = append(calls[v], callRec{exprStr(ce.Args[0]), exprStr(ce.Args[1]), ce.Pos()})
+				return true
+			})
+			for v, cs := range calls {
+				n++
+				var hit *callRec
+				for i := range cs {
+					for j := range cs {
+						if i != j && cs[i].a == cs[j].b && cs[i].b == cs[j].a && cs[i].a != cs[i].b {
+							hit = &cs[j]
+						}
+					}
+				}
+				if hit != nil {
+					bad++
+					r.Bad(rule, fi.Name, v.Name()+"("+hit.a+", "+hit.b+")", c.Pos(hit.pos), "the comparator "+v.Name()+" is consulted in both argument orders, which is only meaningful for a strict comparator; sorting.Reverse negates, so under a reversed sort equal operands answer true both ways: such keys are \"less\" in both directions, the relation is not antisymmetric and their order depends on arrival / map order (and the reversed order is not the mirror of the forward order)")
+				}
+			}
+		}
+	}
+	if bad == 0 {
+		r.OK(rule, "rare/pkg/aggregation ...", "comparator uses", "-", fmt.Sprintf("scan: %d received comparator(s) are consulted in one argument order only", n))
+	}
+}
+
+// isParamOf: is v a parameter of the function whose body is given (declaration or one of its literals)?
+func isParamOf(info *types.Info, fd *ast.FuncDecl, body *ast.BlockStmt, v *types.Var) bool {
+	check := func(ft *ast.FuncType) bool {
+		if ft == nil || ft.Params == nil {
+			return false
+		}
+		for _, f := range ft.Params.List {
+			for _, nm := range f.Names {
+				if info.Defs[nm] == v {
+					return true
+				}
+			}
+		}
+		return false
+	}
+	if fd.Body == body {
+		return check(fd.Type)
+	}
+	for _, fl := range funcLitsIn(fd.Body) {
+		if fl.Body == body {
+			return check(fl.Type)
+		}
+	}
+	return false
+}
